@@ -2,7 +2,8 @@
 C16 — Saturation flags follow the proportion rule and the mute gain covers them
 (`ibldsp.voltage.saturation`, model in `Model/Saturation.lean`).
 
-Property theorems only; helper lemmas are in `Lemmas/Saturation.lean` and `Analysis/Mute.lean`.
+Property theorems only; helper lemmas are in `Lemmas/Saturation.lean`, `Lemmas/SaturationBatch.lean`,
+`Lemmas/SaturationFullScale.lean`, `Analysis/Mute.lean` and `Analysis/MuteShape.lean`.
 
 * Flags: for EVERY `[nc, ns]` array `x`, every scalar or per-channel range and every instance `ops` of the
   element-wise arithmetic (so in particular the four IEEE instances the driver executes, `ops6464` …).
@@ -10,6 +11,10 @@ Property theorems only; helper lemmas are in `Lemmas/Saturation.lean` and `Analy
 -/
 import IblVerif.Lemmas.Saturation
 import IblVerif.Analysis.Mute
+import IblVerif.Lemmas.SaturationBatch
+import IblVerif.Lemmas.SaturationFullScale
+import IblVerif.Analysis.MuteShape
+import IblVerif.Generated.Constants
 
 namespace IblVerif.C16
 open IblVerif.Saturation
@@ -208,5 +213,288 @@ theorem saturation_rejects (ops : Ops α μ φ) (winOf : Nat → List ℝ) {nc n
     unfold saturation
     rw [flags_eq_rule]
     simp [h0]
+
+/-! ## Batch-wise use (`decompress_destripe_cbin` calls `saturation` on overlapping batches `data[:, a:b]`) -/
+
+/-- **A flag depends on its own sample and the next one only.**  The flags of a batch `data[:, a:b]` equal the flags
+of the whole recording at every sample of the batch that has its next sample inside the batch; when the batch ends
+with the recording, at all of its samples. -/
+theorem flags_window_interior (ops : Ops α μ φ) {nc ns : Nat} (x : Fin nc → Fin ns → α) (rg : Range μ nc)
+    (a b : Nat) (hb : b ≤ ns) :
+    ∃ wf W, flagsWindow ops (toRows x) rg.toList (a, b) = .ok wf ∧ flags ops ns (toRows x) rg.toList = .ok W ∧
+      wf.length = b - a ∧ W.length = ns ∧
+      (∀ i, a + i + 1 < b → wf.getD i false = W.getD (a + i) false) ∧
+      (b = ns → ∀ i, a + i < ns → wf.getD i false = W.getD (a + i) false) := by
+  refine ⟨_, _, flagsWindow_eq_rule ops x rg a b hb, flags_eq_rule ops x rg, by simp, by simp, ?_, ?_⟩
+  · intro i hi
+    rw [getD_ofFn_rule, getD_ofFn_rule]
+    exact rule_slice_interior ops x rg.at a b hb i hi
+  · intro hbn i hi
+    subst hbn
+    rw [getD_ofFn_rule, getD_ofFn_rule]
+    exact rule_slice_to_end ops x rg.at a i hi
+
+/-- **The last sample of a batch** is judged by the over-98 % criterion alone: its slew term is the literal `0` the
+code appends, whatever the step into the next sample of the recording is. -/
+theorem flags_window_last (ops : Ops α μ φ) {nc ns : Nat} (x : Fin nc → Fin ns → α) (rg : Range μ nc)
+    (a b : Nat) (hb : b ≤ ns) (i : Nat) (hi : a + i + 1 = b) :
+    ∃ wf, flagsWindow ops (toRows x) rg.toList (a, b) = .ok wf ∧
+      wf.getD i false = (ops.gt (ops.mean (countOver ops x rg.at ⟨a + i, by omega⟩) nc) || ops.gt ops.zero) := by
+  refine ⟨_, flagsWindow_eq_rule ops x rg a b hb, ?_⟩
+  rw [getD_ofFn_rule, rule_slice_last ops x rg.at a b hb i hi]
+  have : a + i < ns := by omega
+  simp [overAt, this]
+
+/-- so a batch that stops short of a steep step misses the flag the whole recording has there: one channel,
+samples `0, 0, 10` (slew limit 5, range 100, proportion 1/2): sample 1 is flagged in the recording, not in `data[:, 0:2]` -/
+theorem window_seam_counterexample :
+    flags (opsExact (fun (v m : Int) => v.natAbs > m.natAbs) (fun a b => (b - a).natAbs ≥ 5) 1 2) 3 [[0, 0, 10]] [100]
+      = .ok [false, true, false] ∧
+    flagsWindow (opsExact (fun (v m : Int) => v.natAbs > m.natAbs) (fun a b => (b - a).natAbs ≥ 5) 1 2) [[0, 0, 10]] [100] (0, 2)
+      = .ok [false, false] := by decide
+
+/-- **Batch-wise = whole recording.**  Batches written in order over a zero-initialised vector give exactly the
+flags of one call on the whole recording, provided every batch starts at or before the last sample of the part
+already final (`Chain`: consecutive batches overlap by at least one sample, the first starts at 0, one ends at `ns`). -/
+theorem batched_eq_whole (ops : Ops α μ φ) {nc ns : Nat} (x : Fin nc → Fin ns → α) (rg : Range μ nc)
+    (wins : List (Nat × Nat)) (h : Chain ns 0 wins) :
+    batched ops ns (toRows x) rg.toList wins = flags ops ns (toRows x) rg.toList := by
+  obtain ⟨out, h1, h2, h3⟩ := batchedFrom_chain ops x rg wins 0 (List.replicate ns false) (by simp)
+    (fun t ht => by omega) h
+  unfold batched
+  rw [h1, flags_eq_rule]
+  congr 1
+  apply List.ext_getElem
+  · simp [h2]
+  · intro t ht1 ht2
+    have ht : t < ns := by omega
+    have e1 := h3 t ht
+    rw [← getD_ofFn_rule] at e1
+    rw [List.getD_eq_getElem?_getD, List.getD_eq_getElem?_getD, List.getElem?_eq_getElem ht1,
+      List.getElem?_eq_getElem ht2] at e1
+    simpa using e1
+
+/-- the chain hypothesis is satisfiable: three overlapping batches over 6 samples -/
+example : Chain 6 0 [(0, 3), (2, 5), (4, 6)] := by simp [Chain]
+
+/-- **The batches of the code** (`last_s = min(N + first_s, ns)`, stride `N − 2T`, one worker) satisfy the hypothesis
+whenever `1 ≤ 2T < N`: the recording-long vector `decompress_destripe_cbin` saves equals one call on the whole recording. -/
+theorem destripe_batched_eq_whole (ops : Ops α μ φ) {nc ns : Nat} (x : Fin nc → Fin ns → α) (rg : Range μ nc)
+    (N T : Nat) (hns : 0 < ns) (hT : 1 ≤ 2 * T) (hN : 2 * T < N) :
+    batched ops ns (toRows x) rg.toList (schedule ns N T) = flags ops ns (toRows x) rg.toList :=
+  batched_eq_whole ops x rg _ (schedule_chain ns N T hns hT hN)
+
+/-- the batch length and taper of the source (re-extracted on every run) satisfy `1 ≤ 2T < N` -/
+theorem destripe_constants_overlap :
+    1 ≤ 2 * Generated.DESTRIPE_TAPER ∧ 2 * Generated.DESTRIPE_TAPER < Generated.DESTRIPE_NBATCH := by decide
+
+/-- Without the overlap, or with the batches written in the other order, the flag of a seam sample is lost:
+samples `0, 0, 10` again, whole recording `[false, true, false]`. -/
+theorem batched_seam_counterexample :
+    batched (opsExact (fun (v m : Int) => v.natAbs > m.natAbs) (fun a b => (b - a).natAbs ≥ 5) 1 2) 3 [[0, 0, 10]] [100]
+      [(0, 2), (1, 3)] = .ok [false, true, false] ∧
+    batched (opsExact (fun (v m : Int) => v.natAbs > m.natAbs) (fun a b => (b - a).natAbs ≥ 5) 1 2) 3 [[0, 0, 10]] [100]
+      [(0, 2), (2, 3)] = .ok [false, false, false] ∧
+    batched (opsExact (fun (v m : Int) => v.natAbs > m.natAbs) (fun a b => (b - a).natAbs ≥ 5) 1 2) 3 [[0, 0, 10]] [100]
+      [(1, 3), (0, 2)] = .ok [false, false, false] := by decide
+
+/-- **The mute gain of a batch equals the mute gain of the whole recording away from the batch edges**: at local
+sample `i` of the batch `[a, b)` when the window footprint `[i − (M−1−c), i + c]` and one more sample to the right
+lie inside the batch (nothing is required on a side where the batch ends with the recording).  Any window. -/
+theorem mute_window_eq_whole (ops : Ops α μ φ) {nc ns : Nat} (x : Fin nc → Fin ns → α) (rg : Range μ nc)
+    (win : List ℝ) (a b : Nat) (hb : b ≤ ns) (wf W : List Bool)
+    (hwf : flagsWindow ops (toRows x) rg.toList (a, b) = .ok wf) (hW : flags ops ns (toRows x) rg.toList = .ok W)
+    (i : Nat) (hleft : a = 0 ∨ win.length - 1 ≤ i + (win.length - 1) / 2)
+    (hright : b = ns ∨ a + i + (win.length - 1) / 2 + 1 < b)
+    (h1 : i < (mute win wf).length) (h2 : a + i < (mute win W).length) :
+    (mute win wf)[i] = (mute win W)[a + i] := by
+  rw [flagsWindow_eq_rule ops x rg a b hb] at hwf
+  rw [flags_eq_rule] at hW
+  injection hwf with hwf
+  injection hW with hW
+  subst hwf hW
+  rw [mute_getElem, mute_getElem, convSame_shift win _ _ a i _ hleft]
+  intro j hj
+  rw [getD_ofFn_rule, getD_ofFn_rule]
+  rcases hright with hbn | hr
+  · subst hbn
+    by_cases hin : a + j < b
+    · exact rule_slice_to_end ops x rg.at a j hin
+    · have h3 : ¬ j < b - a := by omega
+      simp [ruleAt, hin, h3]
+  · exact rule_slice_interior ops x rg.at a b hb j (by omega)
+
+/-- In the code's terms: the rows of a batch that are kept (`[T, N − T)`, from 0 in the first batch, to the end in
+the last) are multiplied by the whole-recording gain, for every window not longer than the taper `T`. -/
+theorem mute_kept_rows_eq_whole (ops : Ops α μ φ) {nc ns : Nat} (x : Fin nc → Fin ns → α) (rg : Range μ nc)
+    (win : List ℝ) (T : Nat) (hT : 1 ≤ T) (hM : win.length ≤ T) (a b : Nat) (hb : b ≤ ns) (wf W : List Bool)
+    (hwf : flagsWindow ops (toRows x) rg.toList (a, b) = .ok wf) (hW : flags ops ns (toRows x) rg.toList = .ok W)
+    (i : Nat) (hleft : a = 0 ∨ T ≤ i) (hright : b = ns ∨ a + i + T < b)
+    (h1 : i < (mute win wf).length) (h2 : a + i < (mute win W).length) :
+    (mute win wf)[i] = (mute win W)[a + i] := by
+  apply mute_window_eq_whole ops x rg win a b hb wf W hwf hW i _ _ h1 h2
+  · rcases hleft with h | h
+    · exact Or.inl h
+    · right; omega
+  · rcases hright with h | h
+    · exact Or.inl h
+    · right; omega
+
+/-- the margins of `mute_kept_rows_eq_whole` are satisfiable: default window 7, taper 8, batch `[10, 40)` of 100 -/
+example : (7 : Nat) ≤ 8 ∧ ((10 : Nat) = 0 ∨ 8 ≤ 12) ∧ ((40 : Nat) = 100 ∨ 10 + 12 + 8 < 40) := by omega
+
+/-! ## Shape of the mute gain -/
+
+/-- **More flags never raise the gain** (non-negative window): if every sample flagged in `f` is flagged in `g`,
+the gain for `g` is at most the gain for `f` everywhere. -/
+theorem mute_antitone_flags (win : List ℝ) (hw : ∀ w ∈ win, 0 ≤ w) (f g : List Bool)
+    (hfg : ∀ u, f.getD u false = true → g.getD u false = true)
+    (t : Nat) (h1 : t < (mute win g).length) (h2 : t < (mute win f).length) :
+    (mute win g)[t] ≤ (mute win f)[t] := by
+  rw [mute_getElem, mute_getElem]
+  have := convSame_mono win hw f g hfg t
+  exact max_le_max (le_refl _) (by linarith)
+
+/-- **Around any flagged sample the gain is at most the taper**: with sample `s` flagged, the gain at `t` is at most
+`1 − win[t + c − s]` (clipped at 0), whatever else is flagged. -/
+theorem mute_le_taper_near_flag (win : List ℝ) (hw : ∀ w ∈ win, 0 ≤ w) (flags : List Bool) (s t : Nat)
+    (hs : flags.getD s false = true) (hst : s ≤ t + (win.length - 1) / 2)
+    (h : t < (mute win flags).length) :
+    (mute win flags)[t] ≤ max 0 (1 - win.getD (t + (win.length - 1) / 2 - s) 0) := by
+  rw [mute_getElem]
+  apply max_le_max (le_refl _)
+  by_cases hin : t + (win.length - 1) / 2 - s < win.length
+  · have h1 := convTerm_le_convSame win hw flags t _ hin
+    have h2 : convTerm win flags t (t + (win.length - 1) / 2 - s) = win.getD (t + (win.length - 1) / 2 - s) 0 := by
+      unfold convTerm
+      have hle : t + (win.length - 1) / 2 - s ≤ t + (win.length - 1) / 2 := by omega
+      have hidx : t + (win.length - 1) / 2 - (t + (win.length - 1) / 2 - s) = s := by omega
+      simp only [hle, if_true, hidx, hs, b2]
+      simp
+    linarith
+  · have : win.getD (t + (win.length - 1) / 2 - s) 0 = 0 := by
+      rw [List.getD_eq_getElem?_getD, List.getElem?_eq_none (by omega)]
+      rfl
+    have := convSame_nonneg win hw flags t
+    linarith
+
+/-- **One flagged sample `s`**: the gain at `t` is one minus the window weight `win[t + c − s]` — the window read
+off its centre (1 where that index falls outside the window). -/
+theorem mute_isolated_profile (win : List ℝ) (flags : List Bool) (s t : Nat)
+    (hiso : ∀ u, flags.getD u false = true ↔ u = s) (h : t < (mute win flags).length) :
+    (mute win flags)[t] =
+      max 0 (1 - (if s ≤ t + (win.length - 1) / 2 then win.getD (t + (win.length - 1) / 2 - s) 0 else 0)) := by
+  rw [mute_getElem, convSame_single win flags s t hiso]
+
+/-- For the cosine window of odd width the gain around an isolated flag is **symmetric** … -/
+theorem mute_isolated_symmetric (h : Nat) (flags : List Bool) (s d : Nat) (hd : d ≤ s)
+    (hiso : ∀ u, flags.getD u false = true ↔ u = s)
+    (h1 : s + d < (mute (cosineWin (2 * h + 1)) flags).length)
+    (h2 : s - d < (mute (cosineWin (2 * h + 1)) flags).length) :
+    (mute (cosineWin (2 * h + 1)) flags)[s + d] = (mute (cosineWin (2 * h + 1)) flags)[s - d] := by
+  rw [mute_isolated_profile _ flags s (s + d) hiso, mute_isolated_profile _ flags s (s - d) hiso]
+  simp only [cosineWin_length]
+  have hc : (2 * h + 1 - 1) / 2 = h := by omega
+  rw [hc]
+  by_cases hdh : d ≤ h
+  · have e1 : s ≤ s + d + h := by omega
+    have e2 : s ≤ s - d + h := by omega
+    have i1 : s + d + h - s = h + d := by omega
+    have i2 : s - d + h - s = h - d := by omega
+    simp only [e1, e2, if_true, i1, i2, cosineWin_odd_symm h d hdh]
+  · have e1 : s ≤ s + d + h := by omega
+    have e2 : ¬ s ≤ s - d + h := by omega
+    have i1 : s + d + h - s = h + d := by omega
+    have z : (cosineWin (2 * h + 1)).getD (h + d) 0 = 0 := by
+      rw [List.getD_eq_getElem?_getD, List.getElem?_eq_none (by simp; omega)]
+      rfl
+    simp only [e1, e2, if_true, if_false, i1, z]
+
+/-- … and **non-decreasing away from the flag**: from 0 on the flag up to 1 beyond the half-width. -/
+theorem mute_isolated_monotone (h : Nat) (flags : List Bool) (s d d' : Nat) (hdd : d ≤ d')
+    (hiso : ∀ u, flags.getD u false = true ↔ u = s)
+    (h1 : s + d < (mute (cosineWin (2 * h + 1)) flags).length)
+    (h2 : s + d' < (mute (cosineWin (2 * h + 1)) flags).length) :
+    (mute (cosineWin (2 * h + 1)) flags)[s + d] ≤ (mute (cosineWin (2 * h + 1)) flags)[s + d'] := by
+  rw [mute_isolated_profile _ flags s (s + d) hiso, mute_isolated_profile _ flags s (s + d') hiso]
+  simp only [cosineWin_length]
+  have hc : (2 * h + 1 - 1) / 2 = h := by omega
+  rw [hc]
+  have e1 : s ≤ s + d + h := by omega
+  have e2 : s ≤ s + d' + h := by omega
+  have i1 : s + d + h - s = h + d := by omega
+  have i2 : s + d' + h - s = h + d' := by omega
+  simp only [e1, e2, if_true, i1, i2]
+  have := cosineWin_odd_anti h d d' hdd
+  exact max_le_max (le_refl _) (by linarith)
+
+/-- the isolated-flag hypothesis is satisfiable (see the `example` after `even_width_counterexample`), and the
+profile for the default width 7 is `0` on the flag: -/
+example (flags : List Bool) (s : Nat) (hiso : ∀ u, flags.getD u false = true ↔ u = s)
+    (hl : s + 0 < (mute (cosineWin (2 * 3 + 1)) flags).length) :
+    (mute (cosineWin (2 * 3 + 1)) flags)[s + 0] = 0 :=
+  mute_zero_on_flag_cosine 3 flags s (by
+    have := (hiso s).mpr rfl
+    by_contra hn
+    rw [List.getD_eq_getElem?_getD, List.getElem?_eq_none (by omega)] at this
+    simp at this) (by
+    have h1 := (hiso s).mpr rfl
+    have hlt : s < flags.length := by
+      by_contra hn
+      rw [List.getD_eq_getElem?_getD, List.getElem?_eq_none (by omega)] at h1
+      simp at h1
+    rw [List.getD_eq_getElem?_getD, List.getElem?_eq_getElem hlt] at h1
+    simpa using h1) hl
+
+/-! ## Full-scale voltage (`Reader.range_volts`, `_get_max_int_from_meta`) -/
+
+/-- **"98 % of full scale" is a statement about raw ADC counts.**  For a recording read as `raw · sample2volts`
+(positive per-channel factors) and `max_voltage = range_volts = sample2volts · maxInt`, the flags (slew criterion
+off, exact arithmetic) are those of the rule `50 · |raw| > 49 · maxInt` on more than `a/b` of the channels:
+independent of the gains. -/
+theorem flags_fullscale_counts (a b : Nat) {nc ns : Nat} (raw : Fin nc → Fin ns → Int) (s : Fin nc → ℚ)
+    (hs : ∀ c, 0 < s c) (maxInt : Int) :
+    flags (opsVolts a b) ns (toRows fun c t => (raw c t : ℚ) * s c)
+        (Range.perChannel fun c => rangeVolts (s c) (maxInt : ℚ)).toList
+      = flags (opsCounts a b) ns (toRows raw) (Range.scalar maxInt : Range Int nc).toList := by
+  rw [flags_eq_rule, flags_eq_rule]
+  congr 2
+  funext t
+  exact rule_volts_eq_counts a b raw s hs maxInt t
+
+/-- non-vacuity: two channels with gains 1/500 and 1/250, maxInt 512 (threshold 501.76 counts), proportion 1/5:
+sample 0 (`502`, `-100`) is flagged, sample 1 (`501`, `501`) is not -/
+example : flags (opsCounts 1 5) 2 [[502, 501], [-100, 501]] [512] = .ok [true, false] := by decide
+
+/-- **Alignment is needed** (a defect of a caller observed while modelling, outside the property).  The hypothesis of `flags_fullscale_counts` — channel `c` of the data
+and entry `c` of `max_voltage` carry the SAME factor — is needed: two channels at 400 of 512 counts (78 %) with
+factors 1 and 1/60 are not flagged against their own full scales, and are flagged when the two ranges are swapped
+(what `saturation(sr[:, :ncv].T, sr.range_volts[:ncv])` does on a probe that is read in sorted channel order while
+`range_volts` stays in file order). -/
+theorem fullscale_misaligned_counterexample :
+    flags (opsVolts 1 5) 1 [[(400 : ℚ) * 1], [(400 : ℚ) * (1 / 60)]]
+      [rangeVolts (1 : ℚ) 512, rangeVolts (1 / 60 : ℚ) 512] = .ok [false] ∧
+    flags (opsVolts 1 5) 1 [[(400 : ℚ) * 1], [(400 : ℚ) * (1 / 60)]]
+      [rangeVolts (1 / 60 : ℚ) 512, rangeVolts (1 : ℚ) 512] = .ok [true] := by
+  decide +kernel
+
+/-- **The full-scale integer** as `_get_max_int_from_meta` decides it: the meta value when present; otherwise 512
+for an imec probe that is not a 2.0 probe, 32768 for a non-imec stream; a 2.0 probe without the key and an imec
+stream of unknown probe type raise. -/
+theorem fullScaleInt_table (v : Int) :
+    fullScaleInt .imecNP2 (some v) = some v ∧ fullScaleInt .imecOther (some v) = some v ∧
+    fullScaleInt .notImec (some v) = some v ∧
+    fullScaleInt .imecOther none = some 512 ∧ fullScaleInt .notImec none = some 32768 ∧
+    fullScaleInt .imecNP2 none = none ∧ fullScaleInt .imecUnknown (some v) = none ∧
+    fullScaleInt .imecUnknown none = none := by
+  simp [fullScaleInt]
+
+/-- 0.98 of none of the default full scales (nor of 8192, the 2.0 value) is a whole number of counts: on such probes no
+raw sample sits exactly on the threshold, so `>` and `≥` flag the same samples there. -/
+theorem fullscale_no_tie (raw : Int) : ∀ m ∈ [(512 : Int), 8192, 32768], 50 * (raw.natAbs : Int) ≠ 49 * m := by
+  intro m hm
+  simp only [List.mem_cons, List.not_mem_nil, or_false] at hm
+  rcases hm with rfl | rfl | rfl <;> omega
+
 
 end IblVerif.C16
